@@ -17,7 +17,7 @@ import random
 
 import torch
 
-from specs import trees
+from specs import treemodels, trees
 from vt import nf
 from vt.cond import Undecided
 from vt.runner import Ob, Refuted
@@ -397,7 +397,7 @@ def ob_sticky(use_tip_states):
             n_switch = len(calls)
             v2 = model._call()          # must use the rescaled callee
             # make the plain value representable again: the switch must stay on
-            model.tree_model._branch_lengths.tensor = torch.full((2 * 700 - 3,), 1.0e-4, dtype=torch.float64)
+            treemodels.tree_parameter(model.tree_model).tensor = torch.full((2 * 700 - 3,), 1.0e-4, dtype=torch.float64)
             v3 = model._call()
         finally:
             for n in names:
@@ -407,7 +407,7 @@ def ob_sticky(use_tip_states):
             raise Refuted("after the switch to rescaling later evaluations used %s (rescale=%s)" % (later, model.rescale),
                           witness={"calls": calls}, replay={"kind": "custom", "contract": "C03", "func": "replay_sticky", "args": {"tip_states": use_tip_states}}, confirmed=True)
         ref = _caterpillar_model(700, False, use_tip_states)
-        ref.tree_model._branch_lengths.tensor = torch.full((2 * 700 - 3,), 1.0e-4, dtype=torch.float64)
+        treemodels.tree_parameter(ref.tree_model).tensor = torch.full((2 * 700 - 3,), 1.0e-4, dtype=torch.float64)
         v3_ref = ref._call()
         if not (torch.isfinite(v1).all() and torch.allclose(v1, v2, rtol=1e-8, atol=0) and torch.allclose(v3, v3_ref, rtol=1e-8, atol=0)):
             raise Refuted("evaluations at/after the switch are inconsistent: %s %s ; %s vs plain reference %s" % (v1, v2, v3, v3_ref), witness={"calls": calls}, confirmed=True)
@@ -457,7 +457,7 @@ def _caterpillar_batch_model(T, bls, use_tip_states=False):
     """one model, branch lengths batched: bls is a list of per-sample branch-length values"""
     m = _caterpillar_model(T, False, use_tip_states)
     t = torch.stack([torch.full((2 * T - 3,), float(b), dtype=torch.float64) for b in bls])
-    m.tree_model._branch_lengths.tensor = t
+    treemodels.tree_parameter(m.tree_model).tensor = t
     return m
 
 
@@ -491,7 +491,7 @@ def ob_switch(use_tip_states, which):
             out = []
             for b in bls:
                 m = _caterpillar_model(T, True, use_tip_states)
-                m.tree_model._branch_lengths.tensor = torch.full((2 * T - 3,), float(b), dtype=torch.float64)
+                treemodels.tree_parameter(m.tree_model).tensor = torch.full((2 * T - 3,), float(b), dtype=torch.float64)
                 out.append(float(m._call().reshape(-1)[0]))
             return out
         # long branches (0.5): site likelihood ~4^-700 underflows; very short branches with identical... use mixed lengths
@@ -501,7 +501,7 @@ def ob_switch(use_tip_states, which):
         # check which samples underflow in a plain pass (facts about the input, not about the switch)
         m = _caterpillar_batch_model(T, cases, use_tip_states) if len(cases) > 1 else _caterpillar_model(T, False, use_tip_states)
         if len(cases) == 1:
-            m.tree_model._branch_lengths.tensor = torch.full((2 * T - 3,), cases[0], dtype=torch.float64)
+            treemodels.tree_parameter(m.tree_model).tensor = torch.full((2 * T - 3,), cases[0], dtype=torch.float64)
         plain = tl_plain(m)
         v1 = m._call().reshape(-1)
         v2 = m._call().reshape(-1)
